@@ -159,18 +159,25 @@ def overtime_case(item):
                 break
         root.temp = {"weights": dict(target)} if k == 1 else {}
         algo(root)
+        if root.bankrupt:
+            return ("bankrupt", viols[:4], k, 1)
         for name in target:
             w = float(root.children[name].weight) if name in root.children else 0.0
-            exp = w0.get(name, 0.0) + (k / float(nsteps)) * (target[name] - w0.get(name, 0.0))
-            if abs(w - exp) > 1e-9:
-                viols.append({"rule": "rebalance_over_time_step", "expected": {"child": name, "step": k, "of": nsteps, "weight": exp}, "observed": w})
+            if "prices" in spec:
+                # constant prices: the path is linear
+                exp = w0.get(name, 0.0) + (k / float(nsteps)) * (target[name] - w0.get(name, 0.0))
+                if abs(w - exp) > 1e-9:
+                    viols.append({"rule": "rebalance_over_time_step", "expected": {"child": name, "step": k, "of": nsteps, "weight": exp}, "observed": w})
+            elif k == nsteps and abs(w - target[name]) > 1e-9:
+                # moving prices: whatever drifted in between, the n-th step lands on the target
+                viols.append({"rule": "rebalance_over_time_final", "expected": {"child": name, "after_steps": nsteps, "weight": target[name]}, "observed": w})
     # one more call without new weights: nothing left to do
     before = {k: float(c.position) for k, c in root.children.items()}
     if t.apply(["next"]):
         root.temp = {}
         algo(root)
         after = {k: float(c.position) for k, c in root.children.items()}
-        if before != after:
+        if before != after and not root.bankrupt:
             viols.append({"rule": "rebalance_over_time_done", "expected": before, "observed": after})
     return ("ok", viols[:4], nsteps, 1)
 
@@ -256,10 +263,12 @@ def run(ctx):
     # RebalanceOverTime
     ot = []
     flat = {"shape": "T1c", "integer": False, "fee": None, "spread": None, "capital": 1024.0, "ndates": 6, "prices": {"a": [4.0] * 6, "b": [1.0] * 6, "c": [2.0] * 6}}
+    moving = {"shape": "T1c", "integer": False, "fee": None, "spread": None, "capital": 1024.0, "ndates": 6}
     for start in ({}, {"a": 0.5}, {"a": 0.25, "b": 0.5}, {"b": -0.25}):
         for target in ({"a": 1.0}, {"a": 0.5, "b": 0.5}, {"b": -0.5, "c": 0.5}, {"a": 0.0, "c": 0.25}):
             for nsteps in (1, 2, 3, 4):
                 ot.append((flat, start, target, nsteps))
+                ot.append((moving, start, target, nsteps))
     for kind in kinds:
         for item, (status, viols, n, tr) in ctx.run(kind, MOD, "overtime_case", ot, chunksize=4):
             ctx.add(states=1, transitions=n, traces_validated_against_impl=1, evaluations=n)
